@@ -141,6 +141,22 @@ def ob_once(run, oid):
                 vs = [a for a in G.guard_atoms(b, dbb, prog) if a[0] == "variant"]
                 term = b.call_term(dbb, d[3]) if d[0] == "call" else b.rvalue_term(d[3]["rv"])
                 fs = G.field_names(G.deep_fields(prog, term, 0), "SlotCertificates")
+                if not fs and isinstance(term, tuple) and term and term[0] == "const" and term[1] == "bool" and term[2]:
+                    # `Cert::X(_) => matches!(certs.x, Some(_))` lowered into the flag itself: true in the block guarded by the test
+                    for a2 in G.guard_atoms(b, dbb, prog):
+                        for x2 in a2[1]:
+                            if isinstance(x2, tuple):
+                                fs = fs | G.field_names(G.deep_fields(prog, x2, 0), "SlotCertificates")
+                if not fs and isinstance(term, tuple) and term and term[0] == "local":
+                    # `matches!(certs.x, Some(_))`: a temporary set to true in the arm guarded by the test on certs.x
+                    for d2 in b.defs().get(term[1], []):
+                        if d2[0] == "stmt":
+                            t2 = b.rvalue_term(d2[3]["rv"])
+                            if isinstance(t2, tuple) and t2 and t2[0] == "const" and t2[1] == "bool" and t2[2]:
+                                for a2 in G.guard_atoms(b, d2[1], prog):
+                                    for x2 in a2[1]:
+                                        if isinstance(x2, tuple):
+                                            fs = fs | G.field_names(G.deep_fields(prog, x2, 0), "SlotCertificates")
                 if not fs:
                     continue
                 for a in vs:
